@@ -90,8 +90,8 @@ def project(prop, op, d):
                 f9, fc9 = f9 + f[6:9], fc9 + fc[6:9]
             if len(emp) > 1 and emp[1] == "false":
                 f9, fc9 = f9 + f[9:14], fc9 + fc[9:14]
-            return (r, tuple(f9), tuple(fc9), d.get("emp"))
-        return (r, d.get("v"), d.get("vl"), tuple(f), tuple(fc))
+            return (r, tuple(f9), d.get("emp"))
+        return (r, d.get("v"), tuple(f))
     if prop == "C10":
         return (r, _idx(d.get("enc"), L), d.get("se"), d.get("rt")) if r == "1" else (r,)
     if prop == "C11":
@@ -169,6 +169,18 @@ def run_decode_stream(prop, name, ops, exhaustive=False, known=None):
         full = f[0] in ("D3", "D2", "N3", "N2")
         jf = judge.judge_v3 if f[0] in ("D3", "S3", "N3") else judge.judge_v2
         jf(f, g, sp, out, full)
+        if "C09" in out.by and g.get("f") == m.get("f") and g.get("r") == "1" and m.get("r") == "1":
+            # the fields hold the written values (same enumeration integers as the model, whose tables are C20's theorems);
+            # only their *printed codes* differ: that is String() of the value types, C20's and C10's statement, not C09's
+            pr = ("fields ", "version ") if g.get("v") == m.get("v") else ("fields ",)
+            keep = [x for x in out.by["C09"] if not x.startswith(pr)]
+            moved = [x for x in out.by["C09"] if x.startswith(pr)]
+            if moved:
+                out.by.setdefault("C20", []).extend("printed code of a correctly decoded field: " + x for x in moved)
+            if keep:
+                out.by["C09"] = keep
+            else:
+                out.by.pop("C09")
         if reuse:
             for p in ("C07", "C08", "C11"):
                 out.by.pop(p, None)
